@@ -206,6 +206,8 @@ type tgenOpts struct {
 	JSConv       bool
 	// JSConvScalars: api.js_conv only on scalar fields (the JSON->Thrift side of the mapping has no list form)
 	JSConvScalars bool
+	// JSConvNoI16: no api.js_conv on i16 fields (the precondition of the open native finding F43)
+	JSConvNoI16 bool
 	NoSet         bool
 	NoBinary      bool
 	StructMapKeys bool
@@ -445,7 +447,7 @@ func (g *tgen) newStruct(depth int) *TStruct {
 				f.Anno = " (api.key = " + idlQuote(f.Alias) + ")"
 			}
 		}
-		if g.o.JSConv && f.Anno == "" && jsConvType(f.T) && !(g.o.JSConvScalars && f.T.Kind == tLIST) && g.t.Chance(1, 4, "field.jsconv") {
+		if g.o.JSConv && f.Anno == "" && jsConvType(f.T) && !(g.o.JSConvScalars && f.T.Kind == tLIST) && !(g.o.JSConvNoI16 && f.T.Kind == tI16) && g.t.Chance(1, 4, "field.jsconv") {
 			f.JSConv = true
 			f.Anno = ` (api.js_conv = "true")`
 		}
